@@ -66,8 +66,16 @@ Definition changes_on_reload (t : node) : Prop :=
 Lemma reload_changes_fixed_model : changes_on_reload fixed_inside.
 Proof. eexists. split; [vm_compute; reflexivity|]. intros ps H. vm_compute in H. discriminate H. Qed.
 
-(* -x / abs x never survive (bare operand: not serialisable; other operands: silently dropped) *)
-Lemma reload_fails_negated : reload negated_model = None /\ reload negated_sum_model = None.
+(* (history: before 8d274ac `reload negated_model = None /\ reload negated_sum_model = None` held here -- -x / abs x
+   never survived; they are inside Proofs2.reload_ok now, see Witness.reload_ok_repaired) *)
+
+(* a component without free parameters that carries an extra attribute (or a tuple) is NOT written as an
+   instance any more (0b56c35): it comes back as the same Model *)
+Definition fixed_with_extra : node :=
+  NColl 9 0 [("a", NModel 7 "A20" "c07_classes.A2" ["a"; "b"] [("a", NFloat 1); ("b", NFloat 2); ("note", NInt 3)]);
+             ("b", A2 8 (u01 1) (NFloat 2))].
+
+Lemma fixed_with_extra_reloads : reload_ok fixed_with_extra = true /\ reload fixed_with_extra = Some fixed_with_extra.
 Proof. split; vm_compute; reflexivity. Qed.
 
 Lemma roundtrip_refuted :
